@@ -531,6 +531,11 @@ func (ri *reflectInspector) recursivelyRecordUsedForReflectImpl(t types.Type, vi
 		if obj.Pkg() == nil {
 			return
 		}
+		// Type arguments are reachable via reflection as well, e.g. as the types
+		// of the fields of an instantiated generic struct.
+		for i := range t.TypeArgs().Len() {
+			ri.recursivelyRecordUsedForReflectImpl(t.TypeArgs().At(i), visited)
+		}
 		if ri.usedForReflect(obj) {
 			return // prevent endless recursion
 		}
